@@ -30,6 +30,8 @@ KERNELS = {
     "apply_spans_index_of_min": {"owner": "C08"},
     "apply_spans_index_of_max": {"owner": "C08"},
     "_get_spans_for_2_fields_by_spans": {"owner": "C08"},
+    "apply_filter_to_index_values": {"owner": "C09"},
+    "apply_indices_to_index_values": {"owner": "C09"},
 }
 C08_NOSRC = ("apply_spans_count", "apply_spans_index_of_first", "apply_spans_index_of_last")
 
@@ -132,8 +134,49 @@ def random_c08(rng, n_cases):
     return out
 
 
-DERIVE = {"C08": derive_c08}
-RANDOM = {"C08": random_c08}
+# ----------------------------------------------------------------------------------------------------------------------
+# C09: the two-pass kernels on (indices, values) buffers.  Both validate their subscripts before using them (fixes D8 /
+# NC09b), so no call is `_unsafe`; a negative entry of `indices_to_apply` is the translation's `negative_index` branch.
+# ----------------------------------------------------------------------------------------------------------------------
+
+def derive_c09(case):
+    if case.get("op") != "c09_kernel":
+        return None
+    if case["kernel"] == "filter":
+        return gcase("apply_filter_to_index_values", [barr(case["flt"]), arr(case["indices"]), arr(case["values"])],
+                     _from="C09")
+    return gcase("apply_indices_to_index_values", [arr(case["idx"]), arr(case["indices"]), arr(case["values"])],
+                 _from="C09")
+
+
+def random_c09(rng, n_cases):
+    out = []
+    for t in range(n_cases):
+        n = rng.choice([0, 1, 2, 3, rng.randrange(1, 10), rng.randrange(1, 40)])
+        lens = [rng.choice([0, 0, 1, 2, 3, 7]) for _ in range(n)]
+        indices = [0]
+        for ln in lens:
+            indices.append(indices[-1] + ln)
+        values = [rng.randrange(0, 256) for _ in range(indices[-1])]
+        what = rng.randrange(10)
+        if what == 8 and n:                              # offsets that are not an encoding: decreasing / beyond the values
+            indices = [rng.randrange(0, len(values) + 3) for _ in indices]
+        if what == 9:
+            values = values[:rng.randrange(0, len(values) + 1)]
+        if t % 2 == 0:
+            m = n if rng.random() < 0.85 else rng.randrange(0, n + 3)
+            flt = [rng.random() < rng.choice([0.2, 0.5, 0.9]) for _ in range(m)]
+            out.append(gcase("apply_filter_to_index_values", [barr(flt), arr(indices), arr(values)], _from="random"))
+        else:
+            lo = 0 if rng.random() < 0.8 else -n - 1
+            idx = [rng.randrange(lo, n + (1 if rng.random() < 0.1 else 0)) if n or lo < 0 or rng.random() < 0.1 else 0
+                   for _ in range(rng.randrange(0, 12))] if n else ([] if rng.random() < 0.7 else [0])
+            out.append(gcase("apply_indices_to_index_values", [arr(idx), arr(indices), arr(values)], _from="random"))
+    return out
+
+
+DERIVE = {"C08": derive_c08, "C09": derive_c09}
+RANDOM = {"C08": random_c08, "C09": random_c09}
 
 
 def extra_cases(owner, cases, tier, rng):
